@@ -171,6 +171,29 @@ impl Set {
             _ => unreachable!(),
         }
     }
+    pub fn inter_assign(&self, o: &Set) -> Set {
+        match (self, o) {
+            (Set::As(a), Set::As(b)) => { let mut x = a.clone(); x.intersection_assign(b); Set::As(x) }
+            (Set::Ip(a, f), Set::Ip(b, _)) => { let mut x = a.clone(); x.intersection_assign(b); Set::Ip(x, *f) }
+            _ => unreachable!(),
+        }
+    }
+    /// self.verify_covered(issuer): issuer Some(blocks) or None = the extension is missing
+    pub fn verify_covered(&self, issuer: Option<&Set>) -> bool {
+        match (self, issuer) {
+            (Set::As(a), Some(Set::As(b))) => a.verify_covered(&AsResources::blocks(b.clone())).is_ok(),
+            (Set::As(a), None) => a.verify_covered(&AsResources::missing()).is_ok(),
+            (Set::Ip(a, _), Some(Set::Ip(b, _))) => a.verify_covered(&IpResources::blocks(b.clone())).is_ok(),
+            (Set::Ip(a, _), None) => a.verify_covered(&IpResources::missing()).is_ok(),
+            _ => unreachable!(),
+        }
+    }
+    pub fn covered_by_inherit(&self) -> bool {
+        match self {
+            Set::As(a) => a.verify_covered(&AsResources::inherit()).is_ok(),
+            Set::Ip(a, _) => a.verify_covered(&IpResources::inherit()).is_ok(),
+        }
+    }
     pub fn diff(&self, o: &Set) -> Set {
         match (self, o) {
             (Set::As(a), Set::As(b)) => Set::As(a.difference(b)),
@@ -481,6 +504,8 @@ fn check_obtained(cx: &mut Ctx, key: &str, set: &Set, exp: &[(u64, u64)]) {
             }
         }
     }
+    // ---- the rest of the public surface that yields or inspects a set (every one of these is "obtainable through the public API")
+    api_sweep(cx, key, set, exp);
     // item count where representable
     if let Set::As(_) = set {
         let want: u128 = exp.iter().map(|&(a, b)| cx.emb.hi(b) - cx.emb.lo(a) + 1).sum();
@@ -492,6 +517,126 @@ fn check_obtained(cx: &mut Ctx, key: &str, set: &Set, exp: &[(u64, u64)]) {
             }
             Ok(None) => {}
             Err(m) => cx.bad(&format!("{key}:count-panic"), m),
+        }
+    }
+}
+
+/// the blocks of the specification's expected set, as concrete bounds
+fn exp_raw(cx: &Ctx, exp: &[(u64, u64)]) -> Vec<Raw> {
+    exp.iter().map(|&b| cx.emb.block(b)).collect()
+}
+
+/// Other routes to and views of the same set: the family-agnostic text parser, per-block text forms, builders fed through
+/// `Extend`, the `all()` constants, per-ASN iteration.
+fn api_sweep(cx: &mut Ctx, key: &str, set: &Set, exp: &[(u64, u64)]) {
+    use rpki::repository::resources::{AsBlocksBuilder, IpBlocksBuilder};
+    let fam = cx.emb.fam;
+    let want = exp_raw(cx, exp);
+    let whole = match fam { Fam::As => (0u128, u32::MAX as u128), Fam::V4 => (0u128, ((u32::MAX as u128) << 96) | M96), Fam::V6 => (0u128, u128::MAX) };
+    let is_whole = want.len() == 1 && want[0] == whole;
+    let same = |got: &Set| -> bool { got.blocks().iter().map(|b| (b.0, b.1)).collect::<Vec<_>>() == want };
+    match set {
+        Set::Ip(blocks, _) => {
+            // IpBlocks::from_str: one parser for both families, guessing the family from the text
+            let text = set.text();
+            match g(|| IpBlocks::from_str(&text)) {
+                Ok(Ok(b)) => { if !same(&Set::Ip(b, fam)) { cx.bad(&format!("{key}:ipblocks-from-str"), format!("IpBlocks::from_str('{text}') is a different set")); } }
+                Ok(Err(e)) => cx.bad(&format!("{key}:ipblocks-from-str"), format!("IpBlocks::from_str('{text}') rejected: {e}")),
+                Err(m) => cx.bad(&format!("{key}:ipblocks-from-str"), m),
+            }
+            // every block on its own: display_v4 / display_v6 -> IpBlock::from_str, from_v4_str / from_v6_str
+            let mut rebuilt = IpBlocksBuilder::new();
+            let mut ok = true;
+            for b in blocks.iter() {
+                let t = if fam == Fam::V4 { b.display_v4().to_string() } else { b.display_v6().to_string() };
+                let r1 = g(|| IpBlock::from_str(&t));
+                let r2 = g(|| if fam == Fam::V4 { IpBlock::from_v4_str(&t) } else { IpBlock::from_v6_str(&t) });
+                for (name, r) in [("from_str", r1), ("from_vN_str", r2)] {
+                    match r {
+                        Ok(Ok(x)) => {
+                            if (x.min().to_bits(), x.max().to_bits()) != (b.min().to_bits(), b.max().to_bits()) {
+                                ok = false;
+                                cx.bad(&format!("{key}:ipblock-{name}"), format!("block '{t}' parses back as {:#x}-{:#x}", x.min().to_bits(), x.max().to_bits()));
+                            } else if name == "from_str" { rebuilt.push(x); }
+                        }
+                        Ok(Err(e)) => { ok = false; cx.bad(&format!("{key}:ipblock-{name}"), format!("block '{t}' rejected: {e}")) }
+                        Err(m) => { ok = false; cx.bad(&format!("{key}:ipblock-{name}"), m) }
+                    }
+                }
+            }
+            if ok {
+                // the builder, fed once through push and once through Extend
+                let a = Set::Ip(rebuilt.finalize(), fam);
+                let mut b2 = IpBlocksBuilder::default();
+                b2.extend(blocks.iter());
+                let b = Set::Ip(b2.finalize(), fam);
+                if !same(&a) || !same(&b) { cx.bad(&format!("{key}:ipblocks-builder"), "IpBlocksBuilder (push / extend) gives a different set".into()); }
+            }
+            // the whole space
+            let all = Set::Ip(IpBlocks::all(), fam);
+            if fam == Fam::V6 || true {
+                // IpBlocks::all() is ::/0 in the shared 128-bit space; for IPv4 sets the typed constant is Ipv4Blocks::all()
+                let typed = match fam { Fam::V4 => Set::Ip((*Ipv4Blocks::all()).clone(), fam), _ => Set::Ip((*Ipv6Blocks::all()).clone(), fam) };
+                match g(|| (typed.contains(set), set.contains(&typed), set.equals(&typed))) {
+                    Ok((sub, sup, eq)) => {
+                        if !sub || sup != is_whole || eq != is_whole {
+                            cx.bad(&format!("{key}:all"), format!("against all(): all ⊇ set {sub}, set ⊇ all {sup}, equal {eq}; the set is{} the whole space", if is_whole { "" } else { " not" }));
+                        }
+                    }
+                    Err(m) => cx.bad(&format!("{key}:all"), m),
+                }
+                if fam == Fam::V6 {
+                    if let Ok(sub) = g(|| all.contains(set)) { if !sub { cx.bad(&format!("{key}:all"), "IpBlocks::all() does not contain the set".into()); } }
+                }
+            }
+        }
+        Set::As(blocks) => {
+            let mut rebuilt = AsBlocksBuilder::new();
+            let mut ok = true;
+            for b in blocks.iter() {
+                let t = b.to_string();
+                match g(|| AsBlock::from_str(&t)) {
+                    Ok(Ok(x)) => {
+                        if (x.min(), x.max()) != (b.min(), b.max()) { ok = false; cx.bad(&format!("{key}:asblock-from-str"), format!("block '{t}' parses back as {x}")); } else { rebuilt.push(x); }
+                    }
+                    Ok(Err(e)) => { ok = false; cx.bad(&format!("{key}:asblock-from-str"), format!("block '{t}' rejected: {e}")) }
+                    Err(m) => { ok = false; cx.bad(&format!("{key}:asblock-from-str"), m) }
+                }
+            }
+            if ok {
+                let a = Set::As(rebuilt.finalize());
+                let mut b2 = AsBlocksBuilder::default();
+                b2.extend(blocks.iter());
+                let b = Set::As(b2.finalize());
+                if !same(&a) || !same(&b) { cx.bad(&format!("{key}:asblocks-builder"), "AsBlocksBuilder (push / extend) gives a different set".into()); }
+            }
+            let all = Set::As(AsBlocks::all());
+            match g(|| (all.contains(set), set.contains(&all), set.equals(&all))) {
+                Ok((sub, sup, eq)) => {
+                    if !sub || sup != is_whole || eq != is_whole {
+                        cx.bad(&format!("{key}:all"), format!("against AsBlocks::all(): all ⊇ set {sub}, set ⊇ all {sup}, equal {eq}; the set is{} the whole space", if is_whole { "" } else { " not" }));
+                    }
+                }
+                Err(m) => cx.bad(&format!("{key}:all"), m),
+            }
+            // the individual AS numbers, in order: all of them when there are few, otherwise the first ones of every block
+            let total: u128 = want.iter().map(|r| r.1 - r.0 + 1).sum();
+            if total <= 4096 {
+                let exp_items: Vec<u32> = want.iter().flat_map(|r| (r.0 as u32)..=(r.1 as u32)).collect();
+                match g(|| blocks.iter_asns().map(|a| a.into_u32()).collect::<Vec<_>>()) {
+                    Ok(got) => { if got != exp_items { cx.bad(&format!("{key}:iter-asns"), format!("iter_asns yields {} items, specification {}", got.len(), exp_items.len())); } }
+                    Err(m) => cx.bad(&format!("{key}:iter-asns"), m),
+                }
+            }
+            for (b, r) in blocks.iter().zip(want.iter()) {
+                let n = (r.1 - r.0 + 1).min(3) as usize;
+                let exp_items: Vec<u32> = (0..n as u32).map(|i| r.0 as u32 + i).collect();
+                match g(|| b.iter().take(n).map(|a| a.into_u32()).collect::<Vec<_>>()) {
+                    Ok(got) => { if got != exp_items { cx.bad(&format!("{key}:asblock-iter"), format!("AsBlock::iter starts {got:?}, specification {exp_items:?}")); } }
+                    Err(m) => cx.bad(&format!("{key}:asblock-iter"), m),
+                }
+                if b.is_whole_range() != (*r == whole) { cx.bad(&format!("{key}:is-whole-range"), format!("is_whole_range = {}", b.is_whole_range())); }
+            }
         }
     }
 }
@@ -596,7 +741,24 @@ fn replay_pair(s: &mut Summary, c: &Value, embs: &[Emb]) {
             Ok(None) => cx.bad("verify_issued:trim", "Trim policy returned an error".into()),
             Err(m) => cx.bad("verify_issued:panic", m),
         }
+        // in-place intersection; bottom-up coverage (claimed = a, issuer = b / missing / inherit)
+        match g(|| sa.inter_assign(&sb)) {
+            Ok(x) => { if let Err(m) = check_set(&x, &inter, e, top) { cx.bad("intersection_assign", m); } }
+            Err(m) => cx.bad("intersection_assign:panic", m),
+        }
+        match g(|| (sa.verify_covered(Some(&sb)), sa.verify_covered(None), sa.covered_by_inherit())) {
+            Ok((by_b, by_missing, by_inherit)) => {
+                if by_b != a_in_b { cx.bad("verify_covered", format!("a.verify_covered(blocks b) = {by_b}, specification {a_in_b}")); }
+                if by_missing != a.is_empty() { cx.bad("verify_covered", format!("a.verify_covered(missing) = {by_missing}, a is{} empty", if a.is_empty() { "" } else { " not" })); }
+                if !by_inherit { cx.bad("verify_covered", "a.verify_covered(inherit) failed".into()); }
+            }
+            Err(m) => cx.bad("verify_covered:panic", m),
+        }
         // ResourceSet and resource limits (the family under test filled, others empty)
+        let rdiff = model_diff(&b, &a, top);
+        if let Err(m) = g(|| resource_set_more(&mut cx, &sa, &sb, &a, &diff, &rdiff)) {
+            cx.bad("resource_set:panic", m);
+        }
         if let Err(m) = g(|| resource_set_ops(&mut cx, &sa, &sb, &inter, &uni, a_in_b)) {
             cx.bad("resource_set:panic", m);
         }
@@ -620,6 +782,60 @@ fn from_resource_set(r: &ResourceSet, like: &Set) -> Set {
         Set::Ip(_, Fam::V4) => Set::Ip((**r.ipv4()).clone(), Fam::V4),
         Set::Ip(_, f) => Set::Ip((**r.ipv6()).clone(), *f),
     }
+}
+
+/// canonical blocks of den(x) \ den(y) on the model line
+fn model_diff(x: &[(u64, u64)], y: &[(u64, u64)], top: u64) -> Vec<(u64, u64)> {
+    let mut out: Vec<(u64, u64)> = Vec::new();
+    for p in 0..=top {
+        if den(x, p) && !den(y, p) {
+            match out.last_mut() {
+                Some(l) if l.1 + 1 == p => l.1 = p,
+                _ => out.push((p, p)),
+            }
+        }
+    }
+    out
+}
+
+/// ResourceSet: difference (both directions), per-ASN membership, text and serde forms, emptiness
+fn resource_set_more(cx: &mut Ctx, sa: &Set, sb: &Set, a: &[(u64, u64)], diff: &[(u64, u64)], rdiff: &[(u64, u64)]) {
+    let (ra, rb) = (to_resource_set(sa), to_resource_set(sb));
+    let d = ra.difference(&rb);
+    // ResourceDiff keeps its two sets private; its serde form shows them
+    let v = serde_json::to_value(&d).expect("ResourceDiff serialises");
+    for (field, exp) in [("added", diff), ("removed", rdiff)] {
+        match serde_json::from_value::<ResourceSet>(v[field].clone()) {
+            Ok(r) => {
+                if let Err(m) = check_set(&from_resource_set(&r, sa), exp, cx.emb, cx.top) { cx.bad(&format!("resource_set:difference:{field}"), m); }
+            }
+            Err(e) => cx.bad(&format!("resource_set:difference:{field}"), format!("serde form of the difference does not parse back: {e}")),
+        }
+    }
+    if d.is_empty() != (diff.is_empty() && rdiff.is_empty()) { cx.bad("resource_set:difference:is_empty", format!("ResourceDiff::is_empty = {}", d.is_empty())); }
+    if ra.is_empty() != a.is_empty() { cx.bad("resource_set:is_empty", format!("ResourceSet::is_empty = {}", ra.is_empty())); }
+    if let Set::As(_) = sa {
+        for p in 0..=cx.top {
+            for v in [cx.emb.lo(p), cx.emb.hi(p)] {
+                let got = ra.contains_asn(Asn::from_u32(v as u32));
+                if got != den(a, p) { cx.bad("resource_set:contains_asn", format!("AS{v}: contains_asn = {got}")); }
+            }
+        }
+    }
+    // text: the three Display strings through from_strs; serde
+    let back = ResourceSet::from_strs(&ra.asn().to_string(), &ra.ipv4().to_string(), &ra.ipv6().to_string());
+    match back {
+        Ok(r) => { if r != ra { cx.bad("resource_set:from_strs", "from_strs of the three text forms is a different set".into()); } }
+        Err(e) => cx.bad("resource_set:from_strs", format!("own text forms rejected: {e}")),
+    }
+    match serde_json::to_string(&ra).map_err(|e| e.to_string()).and_then(|j| serde_json::from_str::<ResourceSet>(&j).map_err(|e| format!("{e} on {j}"))) {
+        Ok(r) => { if r != ra { cx.bad("resource_set:serde", "serde form parses back to a different set".into()); } }
+        Err(m) => cx.bad("resource_set:serde", m),
+    }
+    // the whole space contains everything; nothing but the whole space contains it
+    let all = ResourceSet::all();
+    if !all.contains(&ra) { cx.bad("resource_set:all", "ResourceSet::all() does not contain the set".into()); }
+    if ra.contains(&all) { cx.bad("resource_set:all", "a one-family set contains ResourceSet::all()".into()); }
 }
 
 fn resource_set_ops(cx: &mut Ctx, sa: &Set, sb: &Set, inter: &[(u64, u64)], uni: &[(u64, u64)], a_in_b: bool) {
